@@ -18,7 +18,7 @@ CPU_CONFIGS = {'default': '', 'no-avx512': AVX512, 'no-avx512-avx2': AVX512 + ' 
 
 def list_record(inp):
     from gambit.query import get_result_item, QueryParams, QueryInput
-    w = World(inp['parent'], inp['thr'], gt=inp['gt'])
+    w = World(inp['parent'], inp['thr'], gt=inp['gt'], values=inp.get('values'))
     r = dict(op='item', parent=inp['parent'], thr=inp['thr'], gt=inp['gt'], d=inp['d'], N=inp['N'], cfg=inp.get('cfg', 'default'),
              ok=False, err='', list=[], closest_g=0)
     try:
@@ -26,7 +26,7 @@ def list_record(inp):
         item = get_result_item(db, QueryParams(report_closest=inp['N'], classify_strict=inp.get('strict', False)),
                                w.dists(inp['d']), QueryInput('q'))
         item2 = get_result_item(db, QueryParams(report_closest=inp['N']), w.dists(inp['d']), QueryInput('q'))
-        r['list'] = [dict(g=w.g(m.genome), d=rank_of(m.distance), mt=w.t(m.matched_taxon)) for m in item.closest_genomes]
+        r['list'] = [dict(g=w.g(m.genome), d=w.rank_of(m.distance), mt=w.t(m.matched_taxon)) for m in item.closest_genomes]
         again = [w.g(m.genome) for m in item2.closest_genomes]
         r['closest_g'] = w.g(item.classifier_result.closest_match.genome)
         r['ok'] = again == [x['g'] for x in r['list']]
@@ -131,6 +131,44 @@ class TiesLong(Fam):
             parent, thr, gt = lineage_world(rng, n)
             for N in (1, 3, 10, n + 5):
                 yield dict(parent=parent, thr=thr, gt=gt, d=d, N=N, strict=(i % 5 == 0))
+
+
+def near_values():
+    """float32 values lying closer together than any printing precision: neighbours one ulp apart and pairs less than 5e-7 apart"""
+    import numpy as np
+    vals = set()
+    for b in (0.088282, 0.25, 0.5000001, 0.9999999):
+        for delta in (-4e-7, -1e-7, 0.0, 3e-7):
+            x = np.float32(b + delta)
+            vals |= {float(x), float(np.nextafter(x, np.float32(1), dtype=np.float32))}
+    return sorted(v for v in vals if 0 <= v <= 1)
+
+
+class NearTies(Fam):
+    """distances that are unequal but agree to six or more decimals: the order is decided by the exact float32 values"""
+    name = 'near-ties'
+    exhaustive = False
+
+    def inputs(self, ctx):
+        n_sc = 600 if ctx.tier == 'quick' else 6000
+        vals = near_values()
+        self.rule = (f'{n_sc} seeded vectors of length 2..9 over {len(vals)} float32 values that differ by one ulp or by less than 5e-7 (around 0.088282, 0.25, 0.5, 1): '
+                     f'non-decreasing order by exact value, ties by reference order; thresholds among the same values')
+        rng = ctx.rng.__class__(ctx.seed + 21)
+        for i in range(n_sc):
+            n = rng.randint(2, 9)
+            anchor = rng.randrange(len(vals))
+            near = [x for x in range(len(vals)) if abs(x - anchor) <= 4]
+            d = [rng.choice(near) for _ in range(n)]
+            if i % 3 == 0:
+                d = sorted(d, reverse=True)                # the slightly farther one comes earlier in reference order
+            parent, thr, gt = lineage_world(rng, n)
+            thr = [(-1 if t < 0 else rng.choice(near)) for t in thr]
+            for N in (1, 2, n, n + 3):
+                yield dict(parent=parent, thr=thr, gt=gt, d=d, N=N, values=vals, strict=(i % 4 == 0))
+
+    def nontrivial(self, inp, rec):
+        return core.short_hash([inp['d'], inp['N'], inp['gt'], inp['thr']]) if len(set(inp['d'])) > 1 else None
 
 
 class DbLayouts(Fam):
@@ -246,7 +284,7 @@ def run_db_layouts(ctx):
         shutil.rmtree(tmp, ignore_errors=True)
 
 
-FAMILIES = [SmallExhaustive, TiesLong]
+FAMILIES = [SmallExhaustive, TiesLong, NearTies]
 
 
 def run(ctx):
@@ -277,6 +315,7 @@ def run(ctx):
         flat_rec = [r for rr in recs for r in rr]
         f2.execute = lambda inp, _m=dict(zip(map(core.canon, flat_in), flat_rec)): _m[core.canon(inp)]
         core.run_family(ctx, f2, inputs=flat_in)
+    core.run_family(ctx, NearTies())
     run_db_layouts(ctx)
     ctx.assumptions += ['only the instruction sets of this CPU can be toggled (NPY_DISABLE_CPU_FEATURES)',
                         'thread count and chunk size act before get_result_item (distance matrix); their effect on the list is '
